@@ -10,6 +10,8 @@
 (*   ov   : sparse memory overlay <<addr, byte>> over the Base pattern     *)
 (*   inv  : value a port read returns (-1: no tracer installed)            *)
 (*   frame, ia : frame duration and INT-active window (HALT / LD A,I)      *)
+(*   tA   : -1, or the absolute T after the instruction when the caller   *)
+(*          knows it (contended runs: timing is specified by Ula/Z80Bus)   *)
 (* Step(s) yields [r |-> registers', wr |-> writes in order,               *)
 (*                 io |-> port events in order, mask |-> flag bits fixed]   *)
 (*                                                                         *)
@@ -231,7 +233,7 @@ MainPage(s, pc0, o, ix) ==
     [] x = 0 /\ z = 7 ->        \* RLCA RRCA RLA RRA DAA CPL SCF CCF ; SCF/CCF bits 5,3 are model-dependent -> masked
          LET af == AccOp(y, a, f) IN Em(U2(rA, af[1], rF, af[2]), <<>>, <<>>, 1, 4, IF y > 5 THEN 215 ELSE 255)
     [] x = 1 /\ y = 6 /\ z = 6 ->        \* HALT (HaltAs4TSteps), see Halt below
-         LET t2 == r[rT] + 4 + pt
+         LET t2 == IF s.tA >= 0 THEN s.tA ELSE r[rT] + 4 + pt
              wake == r[rIFF] = 1 /\ (t2 % s.frame) < s.ia
          IN Eff(U1(rHALT, IF wake THEN 0 ELSE 1), <<>>, <<>>,
                 IF wake THEN next(1) ELSE W16(pc0 + pre), 4 + pt, 1 + pre, 255)
@@ -344,7 +346,7 @@ EDPage(s, pc0) ==
          \* LD A,I / LD A,R ; R is read after its refresh increments.
          \* LdAIrQuirk: P/V reads 0 when an interrupt is accepted right after the instruction
          LET v == IF y = 2 THEN r[rI] ELSE IncR(r[rR], 2)
-             quirk == r[rIFF] = 1 /\ ((r[rT] + 9) % s.frame) < s.ia
+             quirk == r[rIFF] = 1 /\ ((IF s.tA >= 0 THEN s.tA ELSE r[rT] + 9) % s.frame) < s.ia
          IN E(U2(rA, v, rF, SZ53(v) + (IF r[rIFF] = 1 /\ ~quirk THEN FPV ELSE 0) + (f % 2)), <<>>, <<>>, 2, 9)
     [] x = 1 /\ z = 7 /\ y = 4 ->      \* RRD
          LET m == M(hl)  a2 == ((a \div 16) * 16) + (m % 16) IN
@@ -424,10 +426,41 @@ Step(s) ==
       \* LD R,A sets R after the refresh increments
       r2 == [i \in 1..30 |->
                CASE i = rPC -> e.pc
-                 [] i = rT -> r[rT] + e.t
+                 [] i = rT -> IF s.tA >= 0 THEN s.tA ELSE r[rT] + e.t
                  [] i = rR -> IF rR \in DOMAIN e.u THEN e.u[rR] ELSE IncR(r[rR], e.ri)
                  [] OTHER -> IF i \in DOMAIN e.u THEN e.u[i] ELSE r[i]]
   IN [r |-> r2, wr |-> RomWriteIgnored(e.wr), io |-> e.io, mask |-> e.mask]
+
+-----------------------------------------------------------------------------
+(* Maskable interrupt at an instruction boundary (SkoolKit's machine):      *)
+(* accepted iff IFF = 1, the frame position after the instruction lies in   *)
+(* the INT-active window, the instruction was not EI (NoIntAfterEI) and was *)
+(* not a lone DD/FD prefix (PrefixNop).  IM 0 is treated as IM 1            *)
+(* (Im0AsIm1).  s = state before the instruction, st = Step(s).             *)
+IntAccepts(s, st) ==
+  LET op == MemAt(s.ov, s.r[rPC]) IN
+  /\ st.r[rIFF] = 1
+  /\ (st.r[rT] % s.frame) < s.ia
+  /\ op # 251
+  /\ ~(op \in {221, 253} /\ st.r[rPC] = W16(s.r[rPC] + 1))
+
+\* memory after the instruction's own writes
+OvAfter(ov, wr) == ov \o wr
+
+Interrupt(s, st) ==
+  LET r == st.r
+      ov2 == OvAfter(s.ov, st.wr)
+      im2 == r[rIM] = 2
+      va == (r[rI] * 256) + 255
+      target == IF im2 THEN MemAt(ov2, va) + (256 * MemAt(ov2, W16(va + 1))) ELSE 56
+      sp2 == W16(r[rSP] - 2)
+      r2 == [r EXCEPT ![rSP] = sp2, ![rPC] = target, ![rT] = r[rT] + (IF im2 THEN 19 ELSE 13),
+                      ![rR] = IncR(r[rR], 1), ![rIFF] = 0, ![rHALT] = 0]
+  IN [r |-> r2, wr |-> st.wr \o RomWriteIgnored(St16(sp2, r[rPC])), io |-> st.io, mask |-> st.mask]
+
+\* one instruction boundary to the next, with the frame interrupt when enabled
+StepInt(s, ints) ==
+  LET st == Step(s) IN IF ints /\ IntAccepts(s, st) THEN Interrupt(s, st) ELSE st
 
 \* Net effect of a write sequence on memory: the last value per address, dropping no-ops
 FinalWrites(ov, wr) ==
